@@ -27,7 +27,7 @@ RULE = ("records over words of pairwise distinct symbols (by parametricity one "
         "{source, misc_feature}; all 2-part joins for n<=4. Non-trivial = total "
         "shift not a multiple of n with >=1 feature or track; distinct = distinct spec.")
 ASSUMPTIONS = [
-    "zero-length locations, fuzzy positions and 'ref' locations are not generated",
+    "fuzzy positions and 'ref' locations are not generated; a zero-length (between-bases) location must stay zero-length in front of the same letter",
     "records have length >= 1",
     "a location part of full length n denotes the whole circle: compared up to rotation",
     "Bio.SeqFeature location arithmetic and Seq slicing are trusted",
@@ -237,6 +237,9 @@ def parts_strategy(draw, n, max_parts=3):
         a = draw(st.integers(1, n - 1))
         e = draw(st.integers(n + 1, a + n))
         return [[a, e, strand]]
+    if shape == 3 and draw(st.booleans()):   # between-bases location (GenBank 7^8)
+        p = draw(st.integers(0, n))
+        return [[p, p, strand]]
     nparts = 1 if shape <= 6 else draw(st.integers(2, max_parts))
     parts = []
     for _ in range(nparts):
